@@ -104,7 +104,7 @@ V("C01-b15", "C01", (WR, "RepresentationCode.USHORT.convert(255) + Representatio
 V("C01-b16", "C01", (SA, "        self._value[7] = b", "        self._value[6] = b"), ["R01.6", "R01.5"],
   "padding setter writes the trailing-length bit")
 V("C01-b17", "C01", (WR, "output.add_bytes(self._make_visible_record(segment, segment_size))",
-                     "output.add_bytes(self._make_visible_record(segment, segment_size), segment_size)"), "R01.8",
+                     "output.add_bytes(self._make_visible_record(segment, segment_size), segment_size)"), ["R01.8", "R01.7"],
   "buffer told a size 4 bytes short")
 V("C01-b18", "C01", (FILE, "            writer.write_storage_unit_label(self.storage_unit_label)\n            writer.write_logical_records(\n                logical_records, output_chunk_size=output_chunk_size\n            )",
                      "            writer._sul_written = True\n            writer.write_logical_records(\n                logical_records, output_chunk_size=output_chunk_size\n            )\n            writer.write_storage_unit_label(self.storage_unit_label)"),
@@ -197,3 +197,39 @@ V("C16-t1", "C16", [(NFD, "            data_encoded = self.data\n", "           
 V("C16-t2", "C16", (NFD, "        if isinstance(self.data, (bytes, bytearray)):\n            data_encoded = self.data\n        else:\n            data_encoded = self.data.encode('ascii')\n",
                     "        data_encoded = self.data if not isinstance(self.data, str) else self.data.encode('ascii')\n"),
   "silent", "conditional expression")
+
+# ---------------------------------------------------------------------------------------------- C10
+SDW = "utils/source_data_wrappers.py"
+V("C10-b1", "C10", (WR, "            new_size = size\n\n        self._bts[self._filled_size:new_size] = bts", "\n        self._bts[self._filled_size:new_size] = bts"),
+  "R10.1", "forgotten `new_size = size` after a flush: the bytearray shrinks and bytes vanish")
+V("C10-b2", "C10", (WR, "        if new_size > self._buffer_size:", "        if new_size >= self._buffer_size:"), "silent",
+  "flush one record early: still correct (behaviour-preserving w.r.t. the file)")
+V("C10-b3", "C10", (WR, "        mode = 'ab' if self._append else 'wb'", "        mode = 'ab'"), "R10.3", "never truncates a pre-existing file")
+V("C10-b4", "C10", (WR, "        self._append = True  # in the future calls, append bytes to the file\n", ""), "R10.3",
+  "every flush truncates the file")
+V("C10-b5", "C10", (WR, "self._writer.write_bytes(self._bts[:self._filled_size], self._filled_size)",
+                    "self._writer.write_bytes(self._bts, self._filled_size)"), "R10.1", "whole buffer written at every flush")
+V("C10-b6", "C10", (WR, "        if output_chunk_size < self._visible_record_length:", "        if output_chunk_size < self._visible_record_length - 4:"),
+  "R10.4", "chunk smaller than a record accepted")
+V("C10-b7", "C10", (SDW, "            yield from self.load_chunk(i * chunk_rows, (i + 1) * chunk_rows)",
+                    "            yield from self.load_chunk(i * chunk_rows, (i + 1) * chunk_rows - 1)"), "R10.5",
+  "last row of every full chunk dropped")
+V("C10-b8", "C10", (SDW, "            yield from self.load_chunk(n_full_chunks * chunk_rows, None)",
+                    "            yield from self.load_chunk(n_full_chunks * chunk_rows + 1, None)"), "R10.5",
+  "first row of the remainder chunk dropped")
+V("C10-b9", "C10", (SDW, "        if remainder_rows:\n            logger.debug(f\"Loading chunk {total_chunks}/{total_chunks} ({remainder_rows} rows)\")",
+                    "        if remainder_rows > 1:\n            logger.debug(f\"Loading chunk {total_chunks}/{total_chunks} ({remainder_rows} rows)\")"),
+  "R10.5", "a remainder of exactly one row is dropped")
+V("C10-b10", "C10", (SDW, "        return slice(self._from_idx + start, self._from_idx + stop)", "        return slice(start, stop)"),
+  "R10.5", "window offset lost in the chunk slice")
+V("C10-b11", "C10", (WR, "        self._total_size += (size or len(bts))", "        self._total_size += len(bts) if size is None else size + 1"),
+  "R10.3", "reported total size off by one per flush")
+V("C10-b12", "C10", (WR, "            self.pass_bytes_to_writer()  # also sets up a new output buffer\n", "            self._writer.write_bytes(bts)\n            return\n"),
+  ["R10.1", "R10.2"], "record that does not fit is written directly, before the buffered ones")
+V("C10-b13", "C10", ("file/multi_frame_data.py", "make_chunked_generator(chunk_rows=self._chunk_rows)",
+                     "make_chunked_generator(chunk_rows=self._chunk_rows or 1000)"), "R10.6", "hidden default chunk size")
+V("C10-t1", "C10", (WR, "        size = size or len(bts)\n        new_size = self._filled_size + size\n",
+                    "        if not size:\n            size = len(bts)\n        new_size = size + self._filled_size\n"), "silent", "")
+V("C10-t2", "C10", (SDW, "            yield from self.load_chunk(i * chunk_rows, (i + 1) * chunk_rows)",
+                    "            first_row = i * chunk_rows\n            yield from self.load_chunk(first_row, first_row + chunk_rows)"),
+  "silent", "")
